@@ -12,7 +12,7 @@ def run (j : Json) : Except String Json := do
   if outOfDomain mres then
     return Json.mkObj [("skip", true), ("why", "outside the modelled domain")]
   let mlogJ := mlog.map evToJson
-  let logAgree := (Json.arr mlogJ.toArray).compress == (Json.arr c.implLog.toArray).compress
+  let logAgree := logText mlogJ == logText c.implLog
   let untouched := (j.getObjValAs? Bool "impl_scope_untouched").toOption.getD true
   let repeatSame := (j.getObjValAs? Bool "impl_repeat_same").toOption.getD true
   let agree := resEq mres c.implRes && logAgree
